@@ -131,11 +131,22 @@ Theorem nlist_fixed_sound : forall cell c xyz i j,
 Proof. exact nlist_half_fix_sound. Qed.
 Print Assumptions nlist_fixed_sound.
 
-(* PARTIAL: completeness of the voxel list for TRICLINIC cells (atoms in the primary cell) is not proved;
-   the triclinic branch of getNeighbors is modelled faithfully (Model.vox_range) and the statement
-     forall B c xyz i j k, box_ok B -> half_width_ok B c 1 -> (all atoms in [0,ax)x[0,by)x[0,cz)) ->
-       norm2 (pos j - pos i - lat (reduce_box B) k) < c*c -> In j (nth i (nlist_cur (Some B) c xyz) [])
-   is only exercised by the correspondence run (triclinic frames, exact oracle). *)
+(* TRICLINIC cells: the statement "atoms inside the primary cell [0,ax)x[0,by)x[0,cz), cutoff <= half of every
+   diagonal entry => every pair closer than the cutoff is listed" is FALSE of the code, as found and repaired alike
+   (found by the thorough correspondence run, reproduced on md.compute_neighborlist): in a flat skewed cell with only
+   three voxels along z a direct neighbour two voxels away is reached only as its periodic image, whose y window is
+   shifted by c_y.  Known defect (KNOWN_FINDINGS C10-neighborlist-triclinic-three-voxels).  What IS proved for
+   triclinic cells: nlist_sound, nlist_sym_irrefl_nodup; completeness for triclinic cells with more voxels is
+   exercised by the correspondence run and the oracle only (PARTIAL). *)
+Theorem nlist_complete_triclinic_incell_refuted :
+  exists B c xyz i j,
+    box_ok B /\ reduce_box B = B /\ 0 < c /\ half_width_ok B c 1 /\
+    (forall k, (k < length xyz)%nat -> in_cell B (pos xyz k)) /\
+    (i < length xyz)%nat /\ (j < length xyz)%nat /\ i <> j /\
+    norm2 (vsub (pos xyz j) (pos xyz i)) < c * c /\
+    ~ In j (nth i (nlist_cur (Some B) c xyz) []) /\ ~ In j (nth i (nlist_fix (Some B) c xyz) []).
+Proof. exact nlist_triclinic_incell_counterexample. Qed.
+Print Assumptions nlist_complete_triclinic_incell_refuted.
 
 (* non-vacuity of the hypothesis sets *)
 Example ortho_incell_hypotheses_satisfiable :
